@@ -83,7 +83,7 @@ def analyse(dirs, prop):
                         bad_hist[hi] = k
                         if len(res["disagreements"]) < 50:
                             res["disagreements"].append({"dir": d, "history": hi, "line": k - a, "request": req[k],
-                                                         "impl": imp[k][:400], "model": mod[k][:400],
+                                                         "impl": imp[k][:200000], "model": mod[k][:200000],
                                                          "requests": req[a:b]})
                     break
             if len(res["samples"]) < 3 and b - a > 8 and hi % 97 == 5:
